@@ -30,8 +30,20 @@ pub fn scal<T: BE>(re: &Value, im: Option<&Value>) -> T {
     match (re.as_i64(), im.map(|v| v.as_i64())) {
         (Some(a), None) => T::from_ri(a, 0),
         (Some(a), Some(Some(b))) => T::from_ri(a, b),
-        _ => T::from_f(f64_from(re), im.map(f64_from).unwrap_or(0.0)),
+        _ => T::from_f(fval(re), im.map(fval).unwrap_or(0.0)),
     }
+}
+/// an f64 from JSON: integer, {m, e}, or one of the special values "nan", "inf", "-inf", "max", "-max", "-0" (floats only)
+pub fn fval(v: &Value) -> f64 {
+    match v.as_str() { Some("nan") => f64::NAN, Some("inf") => f64::INFINITY, Some("-inf") => f64::NEG_INFINITY, Some("max") => f64::MAX, Some("-max") => -f64::MAX, Some("-0") => -0.0,
+        Some(o) => tool_error(&format!("unknown special value {}", o)), None => f64_from(v) }
+}
+/// the same band with special (string) values replaced by 0: what TLC gets to see (only padding slots may be special)
+fn tlc_mat(m: &Value) -> Value { json!({"r": m["r"], "c": m["c"], "d": m["d"].as_array().unwrap().iter().map(|x| if x.is_string() { json!(0) } else { x.clone() }).collect::<Vec<Value>>()}) }
+/// are all IN-BAND entries of this part plain integers?
+fn inband_ints(bj: &Value, key: &str) -> bool {
+    let (n, m1, m2) = (getu(bj, "n"), getu(bj, "m1"), getu(bj, "m2")); let mm = m1 + m2 + 1;
+    match bj.get(key) { None => true, Some(c) => { let d = c["d"].as_array().unwrap(); (0..n).all(|i| (0..mm).all(|k| !(i + k >= m1 && i + k < n + m1) || d[i * mm + k].is_i64())) } }
 }
 pub fn vec_of<T: BE>(re: &Value, im: Option<&Value>) -> Vector<T> {
     let a = re.as_array().unwrap_or_else(|| tool_error("vector expected"));
@@ -56,7 +68,8 @@ pub fn build<T: BE>(n: usize, m1: usize, m2: usize, slot: &dyn Fn(usize, usize) 
 fn storage_is<T: BE>(b: &Banded<T>, n: usize, m1: usize, m2: usize, slot: &dyn Fn(usize, usize) -> T) -> bool {
     let mm = m1 + m2 + 1;
     if b.size() != n || b.size_below() != m1 || b.size_above() != m2 || b.compact().rows() != n || b.compact().cols() != mm { return false; }
-    for i in 0..n { for c in 0..mm { if b.compact()[(i, c)] != slot(i, c) { return false; } } }
+    let same = |x: T, y: T| { let (a, b) = (x.to_c(), y.to_c()); T::NAME == "rat" && x == y || T::NAME != "rat" && a.0.to_bits() == b.0.to_bits() && a.1.to_bits() == b.1.to_bits() };   // (NaN-safe, -0.0 is not 0.0)
+    for i in 0..n { for c in 0..mm { if !same(b.compact()[(i, c)], slot(i, c)) { return false; } } }
     true
 }
 /// the plain construction: new(n, m1, m2, fill) + in-band assignment (padding = fill everywhere)
@@ -88,17 +101,17 @@ pub fn band_from2<T: BE>(bj: &Value) -> (Banded<T>, Banded<T>, &'static str) {
 pub fn jband<T: Elem>(b: &Banded<T>, w: Part) -> Value { json!({"n": b.size(), "m1": b.size_below(), "m2": b.size_above(), "c": jmat(b.compact(), w)}) }
 fn im_band(bj: &Value) -> Value {
     let z = json!({"r": bj["c"]["r"], "c": bj["c"]["c"], "d": vec![0i64; bj["c"]["d"].as_array().unwrap().len()]});
-    json!({"n": bj["n"], "m1": bj["m1"], "m2": bj["m2"], "c": bj.get("ci").cloned().unwrap_or(z)})
+    json!({"n": bj["n"], "m1": bj["m1"], "m2": bj["m2"], "c": bj.get("ci").map(tlc_mat).unwrap_or(z)})
 }
 fn in_band(n: usize, m1: usize, m2: usize, i: usize, j: usize) -> bool { i < n && j < n && j <= i + m2 && i <= j + m1 }
 
 /// construct the operand of a case (a panic is data) and log what was built next to what was asked for
 fn construct<T: BE>(case: &Value, out: &mut Out) -> Option<Banded<T>> {
     let cid = geti(case, "cid"); let bj = &case["band"];
-    let ints = |k: &str| bj.get(k).map(|c| c["d"].as_array().unwrap().iter().all(|x| x.is_i64())).unwrap_or(true);
+    let ints = |k: &str| inband_ints(bj, k);
     match guarded(|| band_from2::<T>(bj)) {
         Ok((m, plain, padding)) => { if ints("c") && ints("ci") { for w in 0..(if T::CX { 2 } else { 1 }) {
-                       let want = if w == 0 { json!({"n": bj["n"], "m1": bj["m1"], "m2": bj["m2"], "c": bj["c"]}) } else { im_band(bj) };
+                       let want = if w == 0 { json!({"n": bj["n"], "m1": bj["m1"], "m2": bj["m2"], "c": tlc_mat(&bj["c"])}) } else { im_band(bj) };
                        out.ev(json!({"op": "built", "ty": T::NAME, "cid": cid, "k": -1, "panic": false, "padding": padding, "part": if w == 0 { "re" } else { "im" }, "post": jband(&plain, if w == 0 { Part::Re } else { Part::Im }), "want": want})); } }
                    Some(m) }
         Err(msg) => { out.ev(json!({"op": "built", "ty": T::NAME, "cid": cid, "k": -1, "panic": true, "msg": msg})); None }
@@ -137,6 +150,10 @@ fn step<T: BE>(m: &mut Banded<T>, op: &Value) -> Result<Res<T>, String> {
             "sub_scalar_assign" => { *m -= argx::<T>(op, "s"); Res::None }
             "matvec" => { let v = vec_of::<T>(&op["v"], if T::CX { op.get("vi") } else { None }); Res::V(if own { m.clone() * v } else { &*m * &v }) }
             "resize" => { m.resize(getu(op, "n"), getu(op, "m1"), getu(op, "m2")); Res::None }
+            "empty" => { *m = Banded::<T>::empty(); Res::None }
+            // assignment of EVERY in-band entry through IndexMut (one event)
+            "set_all" => { let n = m.size(); let d = op["vals"]["d"].as_array().unwrap(); let di = op.get("valsi").map(|v| v["d"].as_array().unwrap());
+                for i in 0..n { for j in 0..n { if in_band(n, m.size_below(), m.size_above(), i, j) { m[(i, j)] = scal::<T>(&d[i * n + j], if T::CX { di.map(|x| &x[i * n + j]) } else { None }); } } } Res::None }
             "det" => Res::Det(m.det()),
             "solve" => { let b = vec_of::<T>(&op["b"], if T::CX { op.get("bi") } else { None }); Res::X(m.solve(&b)) }
             other => tool_error(&format!("unknown banded op {}", other)),
@@ -204,6 +221,7 @@ fn run_hist_from<T: BE>(case: &Value, out: &mut Out, k0: usize) {
             let mut e = base(w);
             for key in ["i", "j", "kb", "n", "m1", "m2", "form"] { if let Some(v) = op.get(key) { e[key] = v.clone(); } }
             if name == "resize" { e["n2"] = op["n"].clone(); }
+            if name == "set_all" { e["vals"] = if w == 0 { op["vals"].clone() } else { op.get("valsi").cloned().unwrap_or_else(|| json!({"r": op["vals"]["r"], "c": op["vals"]["c"], "d": vec![0i64; op["vals"]["d"].as_array().unwrap().len()]})) }; }
             // value arguments: the imaginary twin sees the imaginary parts; a real scalar FACTOR acts on both parts alike
             let factor = matches!(name, "mul_scalar" | "div_scalar" | "mul_assign" | "div_assign");
             if let Some(v) = op.get("x") { e["x"] = if w == 0 { v.clone() } else { op.get("xi").cloned().unwrap_or(json!(0)) }; }
@@ -367,8 +385,8 @@ fn run_lu<T: BE>(case: &Value, out: &mut Out) {
         if !singular { emit(out, &mut k, json!({"op": "solve_units", "n": n, "cxf": T::CX, "panic": sol.is_err(), "units": if sol.is_ok() { su } else { SAT }})); }
     }
     // product and index on the same matrix (integer data only)
-    let ints = |b: &Value| b["c"]["d"].as_array().unwrap().iter().all(|x| x.is_i64()) && b.get("ci").map(|c| c["d"].as_array().unwrap().iter().all(|x| x.is_i64())).unwrap_or(true);
-    if ints(&case["band"]) {
+    let ints = |b: &Value| inband_ints(b, "c") && inband_ints(b, "ci");
+    if ints(&case["band"]) && case.get("aux").and_then(|v| v.as_bool()) != Some(false) {
         let v = case.get("v").cloned().unwrap_or_else(|| Value::from((1..=n as i64).map(|k| 2 * k - 3).collect::<Vec<i64>>()));
         let vi = case.get("vi").cloned().unwrap_or_else(|| zeros_like(&v));
         let sub = json!({"cid": cid, "band": case["band"], "ops": [{"op": "matvec", "form": if cid % 2 == 0 { "own" } else { "ref" }, "v": v, "vi": vi}, {"op": "dense"}, {"op": "dims"}]});
@@ -541,6 +559,7 @@ pub fn gen(tier: &str, seed: u64, out: &mut Out) {
                     case["bi"] = rand_vec_json(&mut rng, n, -9, 9);
                 }
                 if intdata { case["v"] = rand_vec_json(&mut rng, n, -5, 5); if ty == "cx" { case["vi"] = rand_vec_json(&mut rng, n, -5, 5); } }
+                if quick && (t + fam) % 2 == 1 && fam != 7 { case["aux"] = json!(false); }      // quick: product / reads on every second of these cases
                 case["band"] = band;
                 push(out, case);
             }
@@ -566,6 +585,34 @@ pub fn gen(tier: &str, seed: u64, out: &mut Out) {
         if quick && geos.len() > 2 { let off = rng.gen_range(0..geos.len()); geos = vec![geos[off], geos[(off + 1) % geos.len()]]; }
         for (m1, m2) in geos { let mut v = vec![]; scaled_cases(&mut rng, n, m1, m2, quick, &mut v); for c in v { push(out, c); } }
     }
+    // (h) one object resized to a different geometry: systematically the pairs with the SAME number of storage slots but a
+    //     different storage shape, pairs that only move the split m1 / m2, and Banded::empty() followed by resize
+    { let geos = geometries(); let slots = |g: &(usize, usize, usize)| (g.0 * (g.1 + g.2 + 1), g.0, g.1 + g.2 + 1);
+      let mut same_slots = vec![]; let mut split_only = vec![];
+      for a in &geos { for b in &geos { if a == b { continue; } let (sa, sb) = (slots(a), slots(b));
+          if sa.0 == sb.0 && (sa.1, sa.2) != (sb.1, sb.2) { same_slots.push((*a, *b)); } else if (sa.1, sa.2) == (sb.1, sb.2) { split_only.push((*a, *b)); } } }
+      let pick = |rng: &mut StdRng, v: &mut Vec<((usize, usize, usize), (usize, usize, usize))>, k: usize| { for i in (1..v.len()).rev() { v.swap(i, rng.gen_range(0..=i)); } v.truncate(k); };
+      if quick { pick(&mut rng, &mut same_slots, 90); pick(&mut rng, &mut split_only, 24); } else { pick(&mut rng, &mut split_only, 400); }
+      let mut t = 0usize;
+      for (a, b) in same_slots.iter().chain(split_only.iter()) { t += 1; push(out, reshape_case(&mut rng, *a, *b, TYS[t % 3], false)); }
+      for k in 0..(if quick { 12 } else { 120 }) { let g = geos[rng.gen_range(0..geos.len())]; push(out, reshape_case(&mut rng, (1, 0, 0), g, TYS[k % 3], true)); }
+    }
+    // (g) non-finite / extreme values in the slots OUTSIDE the matrix (floats): NaN, +-inf, +-f64::MAX (overflowing to inf under
+    //     `*= 4`), -0.0; in-band entries ordinary.  det / solve / product / reads must not notice.
+    { let specials = ["nan", "inf", "-inf", "max", "-max", "-0"]; let mut t = 0usize;
+      for n in 2..=10usize { for m1 in 0..n { for m2 in 0..n { if m1 + m2 == 0 { continue; } t += 1;
+        if quick && t % 3 != 0 { continue; }
+        let cx = (t / 2) % 2 == 1; let sp = specials[(t / 4) % 6]; let sp2 = specials[(t / 4 + 1 + t % 3) % 6];
+        let mut band = rand_band_int(&mut rng, n, m1, m2, -9, 9); if cx { band = with_im(&mut rng, band, -9, 9); }
+        let mm = m1 + m2 + 1;
+        for i in 0..n { for c in 0..mm { if !(i + c >= m1 && i + c < n + m1) { band["c"]["d"][i * mm + c] = json!(sp); if cx { band["ci"]["d"][i * mm + c] = json!(if rng.gen_bool(0.5) { sp2 } else { sp }); } } } }
+        let pr = |rng: &mut StdRng, ops: &mut Vec<Value>| { ops.push(json!({"op": "det"})); let mut o = json!({"op": "solve", "b": rand_vec_json(rng, n, -5, 5)}); if cx { o["bi"] = rand_vec_json(rng, n, -5, 5); } ops.push(o);
+            let mut mv = json!({"op": "matvec", "form": if rng.gen_bool(0.5) { "own" } else { "ref" }, "v": rand_vec_json(rng, n, -3, 3)}); if cx { mv["vi"] = rand_vec_json(rng, n, -3, 3); } ops.push(mv); ops.push(json!({"op": "dense"})); };
+        let mut ops = vec![]; pr(&mut rng, &mut ops);
+        ops.push(json!({"op": "mul_assign", "s": 4})); pr(&mut rng, &mut ops);
+        ops.push(json!({"op": "sub_scalar_assign", "s": 1})); pr(&mut rng, &mut ops);
+        push(out, json!({"kind": "seq", "fam": "special-padding", "special": sp, "ty": if cx { "cx" } else { "f64" }, "band": band, "ops": ops}));
+      } } } }
     // (f) Gaussian-integer systems with purely imaginary pivots, judged exactly over Gaussian rationals (Complex)
     for n in 1..=10usize { for rep in 0..(if quick { 6 } else { 30 }) {
         let w = if n >= 8 { 2 } else { 4 }; let p = rng.gen_range(0..n.min(w)); let q = rng.gen_range(0..n.min(w));
@@ -610,7 +657,9 @@ impl Sim {
             "div_assign" => if s != 0 { all(&mut self.c, &|v, _, _| v / s) },
             "add_scalar_assign" => all(&mut self.c, &|v, _, _| v + s),
             "sub_scalar_assign" => all(&mut self.c, &|v, _, _| v - s),
-            "resize" => { let (n, m1, m2) = (getu(op, "n"), getu(op, "m1"), getu(op, "m2")); let mm2 = m1 + m2 + 1;
+            "empty" => { self.c = vec![]; self.n = 0; self.m1 = 0; self.m2 = 0; }
+            "set_all" => { let d = ivec(&op["vals"]["d"]); for i in 0..self.n { for j in 0..self.n { if in_band(self.n, self.m1, self.m2, i, j) { self.c[i][self.m1 + j - i] = d[i * self.n + j] as i128; } } } }
+            "resize" => { let (n, m1, m2) = (getu(op, "n"), getu(op, "m1"), getu(op, "m2")); let mm2 = m1 + m2 + 1; let mm = if self.c.is_empty() { 0 } else { mm };
                 let old = std::mem::take(&mut self.c); self.c = (0..n).map(|i| (0..mm2).map(|k| if i < old.len() && k < mm { old[i][k] } else { 0 }).collect()).collect();
                 self.n = n; self.m1 = m1; self.m2 = m2; }
             _ => {}
@@ -876,4 +925,38 @@ fn gauss_case(rng: &mut StdRng, n: usize, p: usize, q: usize, swaps: bool) -> Op
         "band": {"n": n, "m1": m1, "m2": m2, "c": {"r": n, "c": mm, "d": d}, "ci": {"r": n, "c": mm, "d": di}},
         "b": b.iter().map(|p| p.0).collect::<Vec<i64>>(), "bi": b.iter().map(|p| p.1).collect::<Vec<i64>>(),
         "v": rand_vec_json(rng, n, -3, 3), "vi": rand_vec_json(rng, n, -3, 3)}))
+}
+
+// ------------------------------------------------------------------ one object taken to a DIFFERENT geometry
+/// all (n, m1, m2) with n <= 10
+fn geometries() -> Vec<(usize, usize, usize)> { let mut v = vec![]; for n in 1..=10usize { for m1 in 0..n { for m2 in 0..n { v.push((n, m1, m2)); } } } v }
+/// resize (optionally from Banded::empty()) to `to`, fill(0), assignment of EVERY in-band entry through IndexMut, then every observer
+fn reshape_case(rng: &mut StdRng, from: (usize, usize, usize), to: (usize, usize, usize), ty: &str, via_empty: bool) -> Value {
+    let cx = ty == "cx"; let (n, m1, m2) = to;
+    let mut band = rand_band_int(rng, from.0, from.1, from.2, -2, 2); if cx { band = with_im(rng, band, -9, 9); }
+    // target entries (Rat: kept inside what TLC can decide)
+    let mut v = 5i64; let mut tries = 0; let bvec: Vec<i64> = (0..n).map(|_| rng.gen_range(-5..=5)).collect();
+    let a = loop { let a = family(rng, n, m1, m2, 1, v, false);
+        if ty != "rat" || fits_tlc(&to_i128(&a), &bvec) { break a; }
+        tries += 1; if tries % 3 == 0 && v > 1 { v = (v + 1) / 2; }
+        if tries > 40 { break (0..n).map(|i| (0..n).map(|j| if i == j { (1, 0) } else { (0, 0) }).collect()).collect(); } };
+    let mut ops = vec![];
+    // (a first factorisation of the old shape; Rat: only where TLC can decide it)
+    if via_empty { ops.push(json!({"op": "empty"})); }
+    else if ty != "rat" || fits_tlc(&Sim::from_band(&band).dense(), &vec![0; from.0]) { ops.push(json!({"op": "det"})); } else { ops.push(json!({"op": "dense"})); }
+    ops.push(json!({"op": "resize", "n": n, "m1": m1, "m2": m2}));
+    ops.push(json!({"op": "fill", "x": 0, "xi": 0}));
+    let vals: Vec<i64> = (0..n * n).map(|k| a[k / n][k % n].0).collect(); let valsi: Vec<i64> = (0..n * n).map(|k| if in_band(n, m1, m2, k / n, k % n) { rng.gen_range(-3i64..=3) } else { 0 }).collect();
+    let mut sa = json!({"op": "set_all", "vals": {"r": n, "c": n, "d": vals}}); if cx { sa["valsi"] = json!({"r": n, "c": n, "d": valsi}); } ops.push(sa);
+    ops.push(json!({"op": "dense"})); ops.push(json!({"op": "dims"}));
+    for _ in 0..3 { let i = rng.gen_range(0..n); let j = rng.gen_range(0..n); ops.push(json!({"op": "get", "i": i, "j": j})); }
+    ops.push(json!({"op": "matvec", "form": "ref", "v": rand_vec_json(rng, n, -3, 3), "vi": rand_vec_json(rng, n, -3, 3)}));
+    ops.push(json!({"op": "matvec", "form": "own", "v": rand_vec_json(rng, n, -3, 3), "vi": rand_vec_json(rng, n, -3, 3)}));
+    ops.push(json!({"op": "det"})); ops.push(json!({"op": "solve", "b": bvec, "bi": rand_vec_json(rng, n, -5, 5)}));
+    let other = |rng: &mut StdRng| { let b = rand_band_int(rng, n, m1, m2, -9, 9); if cx { with_im(rng, b, -9, 9) } else { b } };
+    ops.push(json!({"op": "neg", "form": "ref"})); ops.push(json!({"op": "add", "form": "ref", "b": other(rng)})); ops.push(json!({"op": "sub", "form": "own", "b": other(rng)}));
+    ops.push(json!({"op": "mul_scalar", "form": "ref", "s": 2})); ops.push(json!({"op": "clone"}));
+    ops.push(json!({"op": "add_assign", "form": "ref", "b": other(rng)})); ops.push(json!({"op": "dense"}));
+    if !cx { for o in ops.iter_mut() { if let Some(m) = o.as_object_mut() { for k in ["xi", "vi", "bi"] { m.remove(k); } } } }
+    json!({"kind": "seq", "fam": "reshape", "ty": ty, "band": band, "ops": ops})
 }
